@@ -45,6 +45,9 @@ def _run(args):
     except subprocess.TimeoutExpired:
         rc, err = 124, ''
     f = pathlib.Path(out_file)
+    if rc != 0 and 'Could not get parsed data for single file output' in err:
+        # a crate without any annotated item has no single-file output at all: it defines nothing
+        return 0, '', ''
     return rc, (f.read_text(errors='replace') if f.exists() else None), err[-300:]
 
 
@@ -96,10 +99,6 @@ def independent_crates(chk, workspaces, facet, what, langs=None, swift_prefix=No
             chk.evaluations += 1
             chk.count('folder_mode_workspaces_' + lang)
             payload = {'phase': 'independent-crates', 'lang': lang, 'crates': dict(zip(names, sources))}
-            # a crate without any annotated item has no single-file output at all ("Could not get parsed data"): it defines nothing
-            for c, src in zip(names, sources):
-                if '#[typeshare' not in src:
-                    singles[(w, lang, c)] = (0, '', '')
             srcs = [singles[(w, lang, c)] for c in names]
             if any(rc != 0 for rc, _, _ in srcs):
                 # a crate that fails alone (a generation error of this language) makes the folder run fail as well: nothing to compare
